@@ -29,7 +29,9 @@ Config == {c \in [op : Ops, ts : TSs, max : MaxPdus, sendChunked : BOOLEAN, recv
              /\ (c.dsts = "other" => c.op \in {"STORE", "STORE_FILE"} /\ c.ts # "bigendian" /\ c.shape \in {"small", "vrmix"} /\ ~c.recvChunked)
              /\ (c.sendChunked => c.op = "STORE_FILE")          \* chunked send applies to send_c_store(path)
              /\ (c.recvChunked => c.op \in StoreOps)             \* chunked receive applies to C-STORE requests
-             /\ (c.op = "STORE_FILE" => c.ts # "deflated" \/ TRUE)}
+             \* (a maximum of 7 leaves one byte of data per PDU: only the small shapes are sent that way, the others would need
+             \*  up to a million PDUs and outlast every timeout)
+             /\ (c.max = 7 => c.shape \in {"small", "empty", "oddlen"})}
 Init == cfg \in Config /\ stage = "sent" /\ payload = <<1, 2, 3, 4, 5>>
 Step == \/ stage = "sent" /\ stage' = "encoded" /\ UNCHANGED <<cfg, payload>>
         \/ stage = "encoded" /\ stage' = "fragmented" /\ UNCHANGED <<cfg, payload>>
